@@ -310,13 +310,17 @@ func RunRandom(cfg RandomConfig) (Result, Script) {
 // ---------- systematic strategies of one Byzantine dealer (binding B2, grid mode) ----------
 
 // GridStrategies = 5 (vector) x 7 (share(s) to the first honest participant) x 2 (share to the second) x 4 (early answer)
-// x 6 (answer policy) x 2 (own complaints); three delivery orders on top.
-const GridStrategies = 5 * 7 * 2 * 4 * 6 * 2
+// x 6 (answer policy); three delivery orders on top.  The behaviour of the Byzantine participant AS A PARTICIPANT of the other
+// dealers' instances (11 kinds, gridParticipant) is not a further factor of the product: it is derived from the strategy number so
+// that every kind meets many dealer strategies; when the participant is not a dealer at all it is the strategy number itself.
+const GridStrategies = 5 * 7 * 2 * 4 * 6
+const GridParticipantKinds = 11
 
 func (s *Sim) gridScript(grid int, b int) ByzScript {
 	k := grid % GridStrategies
 	dig := func(base int) int { d := k % base; k /= base; return d }
-	vecB, sh1, sh2, early, policy, compl := dig(5), dig(7), dig(2), dig(4), dig(6), dig(2)
+	vecB, sh1, sh2, early, policy := dig(5), dig(7), dig(2), dig(4), dig(6)
+	part := (grid*7 + grid/GridParticipantKinds) % GridParticipantKinds
 	bs := ByzScript{Pv: map[string][]Msg{}}
 	isDealer := false
 	for _, d := range s.dealers {
@@ -399,15 +403,94 @@ func (s *Sim) gridScript(grid int, b int) ByzScript {
 			}
 		}
 	}
-	if compl == 1 && s.round <= 2 {
-		for _, d := range s.dealers {
-			if d != b {
-				bs.Bc = append(bs.Bc, Msg{"complaint", "ok", "none", d})
-				break
-			}
+	if !isDealer {
+		part = grid % GridParticipantKinds
+	}
+	s.gridParticipant(&bs, part, b)
+	return bs
+}
+
+// gridParticipant: the Byzantine participant b in the instances of the OTHER dealers (complaint timing, duplicates, malformed and
+// misdirected complaints, dealer-type messages from a non-dealer)
+func (s *Sim) gridParticipant(bs *ByzScript, part int, b int) {
+	target := -1
+	for _, d := range s.dealers {
+		if d != b {
+			target = d
+			break
 		}
 	}
-	return bs
+	nonDealer := -1
+	for j := 0; j < s.sc.N; j++ {
+		nd := j != b
+		for _, d := range s.dealers {
+			nd = nd && d != j
+		}
+		if nd {
+			nonDealer = j
+			break
+		}
+	}
+	complain := func() {
+		if target >= 0 {
+			bs.Bc = append(bs.Bc, Msg{"complaint", "ok", "none", target})
+		}
+	}
+	switch part {
+	case 0: // follows the protocol silently
+	case 1: // complains in the first round
+		if s.round == 1 {
+			complain()
+		}
+	case 2: // complains in the second round
+		if s.round == 2 {
+			complain()
+		}
+	case 3: // the same complaint twice in one round
+		if s.round == 1 {
+			complain()
+			complain()
+		}
+	case 4: // the same complaint in two rounds
+		if s.round <= 2 {
+			complain()
+		}
+	case 5: // a malformed complaint
+		if s.round <= 2 {
+			bs.Bc = append(bs.Bc, Msg{"complaint", "bad", "none", -1})
+		}
+	case 6: // a complaint against a participant that is not a dealer (or, when everybody deals, a late duplicate)
+		if nonDealer >= 0 && s.round <= 2 {
+			bs.Bc = append(bs.Bc, Msg{"complaint", "ok", "none", nonDealer})
+		} else if s.round >= 2 {
+			complain()
+		}
+	case 7: // a complaint after the complaints timeout
+		if s.round == 3 {
+			complain()
+		}
+	case 8: // a verification vector from a participant that is not the dealer of the instance it is read in
+		if s.round == 1 {
+			bs.Bc = append(bs.Bc, Msg{"vec", "ok", "P2", -1})
+		}
+	case 9: // a complaint followed by an answer naming an honest participant (answers are the dealer's business)
+		if s.round <= 2 {
+			complain()
+			for _, p := range s.honest {
+				if p != b {
+					bs.Bc = append(bs.Bc, Msg{"answer", "ok", "P2", p})
+					break
+				}
+			}
+		}
+	case 10: // private shares from a participant that is not the dealer, and junk
+		if s.round == 1 {
+			for _, p := range s.honest {
+				bs.Pv[strconv.Itoa(p)] = append(bs.Pv[strconv.Itoa(p)], Msg{"share", "ok", "P2", -1})
+			}
+			bs.Bc = append(bs.Bc, Msg{"junk", "badtag", "none", -1})
+		}
+	}
 }
 
 func nil2msg() Msg { return Msg{} }
